@@ -154,11 +154,16 @@ struct Abandon { const char *clause; };
 // C16 (allocation failure never corrupts a container): once a fault has been
 // delivered in a case, the container's ordinary model clauses count as C16's
 static std::vector<std::string> g_also_ours;
+static std::vector<std::string> g_ours_after_fault;     // ... from the moment the first injected failure is delivered
+static uint64_t g_faults_hit = 0;
 static bool clause_is_ours(const char *clause)
 {
     if (clause[0] != 'C' || g_prop.empty()) return true;
     for (auto &p : g_also_ours)
         if (strncmp(clause, p.c_str(), p.size()) == 0 && clause[p.size()] == '.') return true;
+    if (g_faults_hit)
+        for (auto &p : g_ours_after_fault)
+            if (strncmp(clause, p.c_str(), p.size()) == 0 && clause[p.size()] == '.') return true;
     return strncmp(clause, g_prop.c_str(), g_prop.size()) == 0 && clause[g_prop.size()] == '.';
 }
 #define CHECK(cond, clause, ...) do { if (!(cond)) { \
@@ -211,7 +216,6 @@ static size_t g_alloc_limit = (size_t)1 << 20;     // requests above are unsatis
 static uint64_t g_alloc_ordinal = 0;    // counts library allocation requests in this case
 static std::vector<uint64_t> g_fail_ordinals;       // sorted ordinals to fail
 static uint64_t g_fail_from = UINT64_MAX;           // fail every ordinal >= this
-static uint64_t g_faults_hit = 0;
 static uint64_t g_limit_hits = 0;
 // number of library allocation requests that returned NULL so far in this case
 // (injected fault or request above g_alloc_limit = "cannot be satisfied")
@@ -430,6 +434,7 @@ static void case_reset()
     g_cur_op = "";
     g_deferred_abandon = nullptr;
     g_also_ours.clear();
+    g_ours_after_fault.clear();
     g_big_alloc_max = 0;
     events_clear();
     if (!g_live->empty()) lib_release_all();
